@@ -9,6 +9,7 @@ import (
 	"go/token"
 	"go/types"
 	"runtime"
+	"strings"
 	"sync"
 
 	"golang.org/x/tools/go/ssa"
@@ -149,13 +150,29 @@ func independent(a, b *thread) bool {
 	}
 	for _, x := range a.objs {
 		for _, y := range b.objs {
-			if x == y {
+			sx, xs := x.(sharedAccess)
+			sy, ys := y.(sharedAccess)
+			if xs && ys {
+				continue // two shared (read-lock / atomic load) accesses commute
+			}
+			ox, oy := x, y
+			if xs {
+				ox = sx.o
+			}
+			if ys {
+				oy = sy.o
+			}
+			if ox == oy {
 				return false
 			}
 		}
 	}
 	return true
 }
+
+// sharedAccess marks an operation that commutes with other shared operations on
+// the same object (RLock/RUnlock among readers, atomic loads).
+type sharedAccess struct{ o interface{} }
 
 func (s *scheduler) deadlock(msg string) {
 	s.Deadlock = true
@@ -689,7 +706,7 @@ func init() {
 	ext("(*sync.RWMutex).RLock", func(fr *frame, args []value) value {
 		s := fr.i.sch
 		o := s.obj(ptr(args))
-		s.yield(func() bool { return !o.locked }, "RWMutex.RLock", o)
+		s.yield(func() bool { return !o.locked }, "RWMutex.RLock", sharedAccess{o})
 		o.readers++
 		s.acquire(o)
 		return nil
@@ -697,7 +714,7 @@ func init() {
 	ext("(*sync.RWMutex).RUnlock", func(fr *frame, args []value) value {
 		s := fr.i.sch
 		o := s.obj(ptr(args))
-		s.yield(nil, "RWMutex.RUnlock", o)
+		s.yield(nil, "RWMutex.RUnlock", sharedAccess{o})
 		if o.readers <= 0 {
 			fr.i.run.violation("fatal", "sync: RUnlock of unlocked RWMutex", nil)
 			s.abortPath("")
@@ -758,7 +775,11 @@ func init() {
 			s := fr.i.sch
 			p := ptr(args)
 			o := s.obj(p)
-			s.yield(nil, "atomic."+name, o)
+			if strings.HasPrefix(name, "Load") {
+				s.yield(nil, "atomic."+name, sharedAccess{o})
+			} else {
+				s.yield(nil, "atomic."+name, o)
+			}
 			s.acquire(o)
 			r := f(fr, p, args)
 			s.release(o)
